@@ -18,16 +18,18 @@ VARIABLES ph,        \* "idle" | "func"
           hook,      \* number of nodes before the injection point (the hook cursor)
           valid,     \* constants the UniCompiler believes to be materialised
           done,      \* projections of the finished functions
-          nuse
-mvars == <<ph, nodes, hook, valid, done, nuse>>
+          nuse,
+          hist       \* the API calls made so far (exported as scripts for the harness: binding R)
+mvars == <<ph, nodes, hook, valid, done, nuse, hist>>
 
-MInit == ph = "idle" /\ nodes = <<>> /\ hook = 0 /\ valid = {} /\ done = <<>> /\ nuse = 0
+MInit == ph = "idle" /\ nodes = <<>> /\ hook = 0 /\ valid = {} /\ done = <<>> /\ nuse = 0 /\ hist = <<>>
 
 Ins(s, k, x) == SubSeq(s, 1, k) \o <<x>> \o SubSeq(s, k + 1, Len(s))       \* insert x after the first k nodes
 Inst(d, u) == [t |-> "inst", d |-> d, u |-> u]
 
 MAddFunc == /\ ph = "idle" /\ Len(done) < MaxFuncs
             /\ ph' = "func" /\ nodes' = <<[t |-> "func"]>> /\ hook' = 1 /\ nuse' = 0
+            /\ hist' = Append(hist, <<"func">>)
             /\ UNCHANGED <<valid, done>>
 
 (* one constant-using operation in context ctx; the memory form needs the table pointer, the register form the constant register,
@@ -54,18 +56,22 @@ MUse(c, ctx) ==
         /\ hook' = h2
         /\ valid' = valid \cup {"tbl:common_table_ptr", c}
   /\ nuse' = nuse + 1
+  /\ hist' = Append(hist, <<"use", c, ctx>>)
   /\ UNCHANGED <<ph, done>>
 
 MEndFunc == /\ ph = "func"
             /\ done' = Append(done, nodes \o <<[t |-> "end"]>>)
             /\ ph' = "idle" /\ nodes' = <<>> /\ hook' = 0 /\ nuse' = 0
             /\ valid' = IF ResetOnEnd THEN {} ELSE valid
+            /\ hist' = Append(hist, <<"end">>)
 
 MNext == MAddFunc \/ MEndFunc \/ \E c \in Consts, ctx \in Ctxs : MUse(c, ctx)
 MSpec == MInit /\ [][MNext]_mvars
 
 (* every finished function satisfies the dominance requirement of the contract *)
 Dominates == \A k \in 1..Len(done) : SeqOk(done[k])
+(* behaviour export *)
+Export == (ph = "idle" /\ Len(done) >= 1 /\ nuse = 0) => PrintT(<<"BEH", hist>>)
 (* sanity of the model itself: the hook always lies inside the entry block *)
 HookInEntry == ph = "func" => \A k \in 1..hook : nodes[k].t \in {"func", "inst"}
 =============================================================================
